@@ -248,7 +248,11 @@ class Collector:
                     # closure parameters
                     it = args[0] if args else None
                     bind = closure_param_binding(c.get("name", ""), c.get("decl", ""), it, cb.arg_count - 1)
-                    if bind is not None and cb.arg_count >= 2:
+                    dcl = c.get("decl", "")
+                    if (dcl.startswith("std::option::Option::<") or dcl.startswith("std::result::Result::<")) and cb.arg_count == 2 and \
+                            c.get("name") in ("map", "and_then", "is_some_and", "is_ok_and", "map_or", "inspect", "filter", "ok_or_else"):
+                        cmap[("param", 2)] = payload(it)     # Option/Result combinators hand the payload to the closure
+                    elif bind is not None and cb.arg_count >= 2:
                         cmap[("param", 2)] = ("item", it, ("cl", site[0]))
                     else:
                         for pi in range(2, cb.arg_count + 1):
